@@ -107,7 +107,10 @@ def problem_decl(script, cal):
 
 def run_case(driver, script, rng, use_z3=False):
     """returns (diffs, nlines)"""
-    cal = rng.choice([(None, None), (None, None), (60, None), (3600, 86400), (1, 0)])
+    # time steps below and above one day (a timedelta normalises to days + seconds: `.seconds` is not the step), with and
+    # without a start time
+    cal = rng.choice([(None, None), (None, None), (60, None), (3600, 86400), (1, 0), (900, 7200), (86400, None),
+                      (129600, 3600), (604800, 0), (90000, None)])
     real = pslib.Real()
     real.run(problem_decl(script, cal))
     driver.reset()
